@@ -24,11 +24,11 @@ for sid in sys.argv[1:]:
             meta["suite_with_change"] = " ".join(out.split())
             meta["suite_passes_with_change"] = "# PASS: 10" in out.replace("  ", " ") and "# FAIL: 0" in out.replace("  ", " ")
             run = "run.sh" if os.path.exists(src + "/run.sh") else "demo.sh"
-            rc, out = sh("sh %s/%s %s" % (src, run, wt), cwd=src, timeout=900)
+            rc, out = sh("bash %s/%s %s" % (src, run, wt), cwd=src, timeout=900)
             meta["demo_with_change_rc"] = rc
             meta["demo_with_change_tail"] = out[-400:]
             sh("git checkout -- lib src && make -j8 2>&1 | tail -1", cwd=wt)
-            rc2, out2 = sh("sh %s/%s %s" % (src, run, wt), cwd=src, timeout=900)
+            rc2, out2 = sh("bash %s/%s %s" % (src, run, wt), cwd=src, timeout=900)
             meta["demo_without_change_rc"] = rc2
             meta["demo_without_change_tail"] = out2[-300:]
             meta["confirmed"] = bool(meta["suite_passes_with_change"] and rc != 0 and rc2 == 0)
